@@ -460,7 +460,9 @@ REPLACEMENTS = ['(', ')', '=', ':', '!', '&&', '||', '|', '{', '}', '[', ']', '-
 # integer expressions.  BAD: do not evaluate to a Python int (harness re-checks this with a restricted eval)
 BAD_INTS = ['1//0', '1%0', '9//(1-1)', '1/1', '1.5', '1e3', 'a', '1+', '(1', '1)', '+', "''", "'1 2'", '0x', '1_', '08',
             '1++', "'1,2'", '[1]', "'( 1 + 2'", '1//', '*2', "'\"a\"*2'", "'()'", 'None', "'1 if a else 2'", '0b2',
-            '1.', "'1 // 0'", "' '", '"0 % 0"', '１２', '١']
+            '1.', "'1 // 0'", "' '", '"0 % 0"', '１２', '١',
+            # text that is special to str.format / the % operator (it ends up inside error messages)
+            '{}[0]', '1}', '{0}+1', '{2', '{', '}', "'{x}'", '{0}', "'%s'", "'%(x)s'", '1%', "'{0!r:>{1}}'"]
 EXTREME_INTS = ['0', '-1', '-0', '+1', '99999999999999999999', '-99999999999999999999', '9' * 400, '9' * 5000,
                 '0' * 50, '-' * 50 + '1', '(' * 30 + '1' + ')' * 30, '9*' * 60 + '9', '0x7fffffffffffffff+1', '1_000',
                 "' 7 '", '2147483648', '-2147483649', '~0', 'True', '1-2*3//4%5', '(' * 120 + '1' + ')' * 120,
@@ -479,6 +481,7 @@ BAD_REGEXES = ["'a('", "'a)'", "'[a'", "'*a'", "'a**'", "'a{2,1}'", "'(?P<n>a)(?
                "'(?P=nosuch)'", "'(?z)'", "'\\'", "'[z-a]'", "'(?L)a'", "'a{99999999999999999999}'", "'\\N{nosuchname}'",
                "'(?#'", "'\\x1'", "'(?i'", "'+'", "'?'", "'(?P<1>a)'", "'(?P<n'", "'\\u12'", "'(?au)a'", "'a{1,2}{3}'",
                "'(?<!a*)b'", "'(?(1)a|b|c)'", "'(?(9)a)'", "'(?-i'", "'\\g<1>\\'",
+               "'({0}'", "'[{x}'", "'*{}'", "'(%s'", "'(?P<{0}>a'", "'%(x'",
                # ill-formed and holding a reference to a path symbol: can only be compiled once the sandbox exists
                '"a(@[EXACTLY_ACT]@"', '"*@[EXACTLY_HOME]@"', '"@[EXACTLY_TMP]@/[a-z"', '@[EXACTLY_RESULT]@/(x',
                '"(?P<n>@[EXACTLY_ACT_HOME]@"']
@@ -489,7 +492,8 @@ EXTREME_REGEXES = ["''", "'(a*)*b'", "'a{0,65535}'", "'" + '(' * 40 + 'a' + ')' 
 EXTREME_REGEXES = [x for x in EXTREME_REGEXES if x.count("'") == 2]
 # replacement strings.  BAD: re.sub(regex, repl, 'hello') raises for every regex used in the replace templates
 BAD_REPLS = ["'\\6'", "'\\g<6>'", "'\\g<nosuch>'", "'\\g<'", "'\\g<>'", "'\\g'", "'x\\'", "'\\q'", "'\\g<1x>'",
-             "'\\99'", "'\\g<-1>'", "'\\g< 1>'", "'a\\g<n'", "'\\c'", "'\\8'", "'\\g<00000000000000000007>'"]
+             "'\\99'", "'\\g<-1>'", "'\\g< 1>'", "'a\\g<n'", "'\\c'", "'\\8'", "'\\g<00000000000000000007>'",
+             "'\\g<{0}>'", "'{}\\9'", "'%s\\g<'"]
 EXTREME_REPLS = ["''", "'\\\\'", "'\\n\\r\\t'", "'\\&'", "'\\0'", "'\\g<0>\\g<0>'", "'" + 'y' * 5000 + "'", "'\\000'",
                  "'\\x41'", "'$1'", "'&'", "'\u00e9'"]
 # glob patterns: none is an error by the manual; all are "extreme or ill-formed"
@@ -502,7 +506,8 @@ GLOBS = ["'['", "'[!'", "'[]'", "'[z-a]'", "'**'", "'***'", "'[[]'", "'" + '*' *
 ODD_STRINGS = ["''", '""', "'a b'", "'a/b/c/d'", "'" + 'n' * 300 + "'", "'\u00e9\u00f6'", 'a#b', "'#'", "a'b'\"c\"",
                '@[EXACTLY_TMP]@', '@[EXACTLY_HOME]@/data.txt', '@[ S_STR ]@', '@[S_STR]@@[S_STR]@', "'@[S_STR]@'",
                '"@[UNDEFINED_SYMBOL]@"', '-', '--', "'-rel-act'", 'a\\b', "'${HOME}'", "'*'", "'a:b'", 'a=b', '=x',
-               "sub/", "'sub/../x'", "x/", "':'", "'!'", "'.'", "'./'", "'..'", "'./.'", "'a/.'", "' '", "'~'", "'~/x'"]
+               "sub/", "'sub/../x'", "x/", "':'", "'!'", "'{}'", "'{0}'", "'%s'", "'{x'", "'.'", "'./'", "'./.'", "'a/.'", "' '", "'~'", "'~/x'"]
+# (not '..': as a directory to copy / list it contains the sandbox, i.e. its own destination - see ASSUMPTIONS)
 
 
 # ---------------------------------------------------------------------------------------------
